@@ -1,6 +1,7 @@
 package rules
 
 import (
+	"fmt"
 	"go/types"
 
 	"golang.org/x/tools/go/ssa"
@@ -59,4 +60,78 @@ func ocidirLockInfo(p *core.Prog) (*core.LockInfo, *types.Named) {
 		},
 	}
 	return core.AnalyzeLocks(spec), n
+}
+
+// staleIndexRule: between reading index.json into a local copy and writing that copy back, no
+// function that rewrites index.json itself may be called: the copy would overwrite the nested update
+// (a lost update on the tag table: a deleted tag returns, a referrers tag reverts).
+func staleIndexRule(p *core.Prog, r *core.Report, rule string) {
+	r.Rule(rule, "layout index read-modify-write is not interleaved with itself: between readIndex and the writeIndex of that copy no function that rewrites the index (manifestPut, tagDelete, referrer updates, …) is called", 2)
+	rd := p.Method(ocidirRel, "OCIDir", "readIndex")
+	wr := p.Method(ocidirRel, "OCIDir", "writeIndex")
+	if rd == nil || wr == nil {
+		r.MissingAnchor(rule, ocidirRel+".(*OCIDir).readIndex / writeIndex")
+		return
+	}
+	writers := reachers(p, map[*ssa.Function]bool{wr: true})
+	n := 0
+	for _, fn := range pkgFuncs(p, ocidirRel) {
+		if fn == wr || fn == rd {
+			continue
+		}
+		var reads, writes []*ssa.Call
+		core.Calls(fn, func(c ssa.CallInstruction) {
+			call, ok := c.(*ssa.Call)
+			if !ok {
+				return
+			}
+			switch core.CalleeFn(c) {
+			case rd:
+				reads = append(reads, call)
+			case wr:
+				writes = append(writes, call)
+			}
+		})
+		if len(reads) == 0 || len(writes) == 0 {
+			continue
+		}
+		lab := labeler{}
+		for _, w := range writes {
+			// the read(s) this write's index comes from
+			var from []*ssa.Call
+			for _, o := range core.Origins(core.CallArg(w, 2), core.SliceOpts{FieldsThrough: true}) {
+				if o.Kind == core.OCall && core.CalleeFn(o.Call) == rd {
+					from = append(from, o.Call)
+				}
+			}
+			if len(from) == 0 {
+				from = reads // a modified copy: be conservative, consider every read
+			}
+			n++
+			label := lab.next("write of the index read earlier")
+			bad := ""
+			for _, rdc := range from {
+				seen := core.Reach{Stop: func(in ssa.Instruction) bool { return in == ssa.Instruction(w) }}.FromInstr(rdc)
+				for in := range seen {
+					if in == ssa.Instruction(w) || in == ssa.Instruction(rdc) {
+						continue
+					}
+					if _, isCall := in.(ssa.CallInstruction); !isCall {
+						continue
+					}
+					if g := instrRefs(p, in, writers); g != nil {
+						bad = fmt.Sprintf("%s is called at %s between the read at %s and this write", g.Name(), p.Pos(in.Pos()), p.Pos(rdc.Pos()))
+					}
+				}
+			}
+			if bad != "" {
+				r.Violated(rule, p.FuncName(fn), label, p.Pos(w.Pos()), bad+": it rewrites index.json itself, and the stale copy then overwrites that update")
+			} else {
+				r.Held(rule, p.FuncName(fn), label, p.Pos(w.Pos()), "nothing that rewrites the index runs between the read and the write of the copy")
+			}
+		}
+	}
+	if n == 0 {
+		r.Undecided(rule, ocidirRel, "index read-modify-write", "", "no function reads the index and writes it back")
+	}
 }
